@@ -85,6 +85,9 @@ def cmd_property(prop, a):
     if new:
         new.sort(key=lambda x: (x[0], str(x[1])))
         fam_name, seed, plan, v, dg = new[0]
+        if isinstance(plan, dict) and plan.get("__reduce_to__"):
+            fam_name, plan = plan["__reduce_to__"]["family"], plan["__reduce_to__"]["plan"]
+            v = dict(v, detail=v["detail"].split(": ", 1)[-1] if v["detail"].startswith("single fault") else v["detail"])
         print("  %d violating run(s) of %s; first: family=%s seed=%s tag=%s\n    %s" % (
             len(new), prop, fam_name, seed, v["tag"], v["detail"][:400]), flush=True)
         fam = core.family(fam_name)
